@@ -29,6 +29,7 @@ RawItem(t) == ItemT[ItemIx[t]]
 NoRev == ""
 
 \* the C05 order on the recorded identifiers (RevRec, TIdx, TIsRes, TIsDel, TSpecial, TDig, TRevLess)
+RevIx == [t \in {RevT[i].rev : i \in DOMAIN RevT} |-> CHOOSE i \in DOMAIN RevT : RevT[i].rev = t]
 INSTANCE RevOrder
 
 Core == INSTANCE MeldaCore WITH RevLess <- TRevLess, Idx <- TIdx, IsRes <- TIsRes,
@@ -65,10 +66,19 @@ Derive(o) ==
              cc == Core!CC(I)
              an == AppliedNames(o)
              ab == {b \in Core!Blocks(I) : b.name \in an}
+             chg == UNION {b.changes : b \in ab}
+             objs == Objects(o)
+             tr == [x \in objs |-> Tree(o, x)]
          IN [has |-> TRUE, items |-> I, cc |-> cc, ccn |-> Core!Names(cc),
              applied |-> an, ablocks |-> ab,
              valid |-> {i.tok : i \in {j \in I : j.ok /\ j.kind \in {"delta", "pack"}}},
-             view |-> View(o)]
+             view |-> View(o),
+             tree |-> tr,
+             leaves |-> [x \in objs |-> Core!LiveLeaves(tr[x])],
+             bobjs |-> {c.o : c \in chg},                                    \* objects named by applied blocks
+             ctree |-> [x \in {c.o : c \in chg} |-> {[rev |-> c.rev, par |-> c.prev] : c \in {y \in chg : y.o = x}}]]
+\* winner rule on the derived leaves
+WinnerOfLeaves(L) == IF L = {} THEN NoRev ELSE Core!MaxRev(L)
 
 -----------------------------------------------------------------------------
 VARIABLES l,      \* index of the last consumed event
@@ -179,22 +189,23 @@ C08_Returns_C ==
     /\ ("crash" \in DOMAIN E.x => \A s \in Rng(E.x.crash) : s.fresh.open # "panic")
 
 (* C05 — the winner rule, on every tree of an observation *)
-WinnerRuleOn(o) ==
+WinnerRuleOnD(o, d) ==
     \A x \in Objects(o) :
-        LET T == Tree(o, x) IN
-        /\ o.winner[x] = Core!Winner(T)
-        /\ Rng(o.confl[x]) = Core!Conflicting(T)
-        /\ (x \in Rng(o.inconf)) = Core!InConflict(T)
+        LET L == d.leaves[x]  w == WinnerOfLeaves(L) IN
+        /\ o.winner[x] = w
+        /\ Rng(o.confl[x]) = L \ {w}
+        /\ (x \in Rng(o.inconf)) = (Cardinality(L) > 1)
+WinnerRuleOn(o) == WinnerRuleOnD(o, Derive(o))
 C05_WinnerRule_A == IF Acting THEN HasObs(Post) ELSE TRUE
 C05_WinnerRule_C ==
-    IF Acting THEN WinnerRuleOn(Post)
-    ELSE \A r \in DOMAIN ob : HasObs(ob[r]) => WinnerRuleOn(ob[r])
+    IF Acting THEN WinnerRuleOnD(Post, DPost)
+    ELSE \A r \in DOMAIN ob : HasObs(ob[r]) => WinnerRuleOnD(ob[r], der[r])
 
 \* trees are exactly the change records of the applied blocks (plus staged revisions)
 TreeFromBlocksOn(o, d) ==
-    /\ \A x \in Objects(o) : Core!Committed(Tree(o, x)) = Core!TreeOf(d.ablocks, x)
-    /\ \A x \in Core!ObjsOf(d.ablocks) : x \in Objects(o)
-    /\ \A x \in Objects(o) : x \in Core!ObjsOf(d.ablocks) \/ \E e \in Tree(o, x) : e.st
+    /\ \A x \in Objects(o) : Core!Committed(d.tree[x]) = (IF x \in d.bobjs THEN d.ctree[x] ELSE {})
+    /\ \A x \in d.bobjs : x \in Objects(o)
+    /\ \A x \in Objects(o) : x \in d.bobjs \/ \E e \in d.tree[x] : e.st
 C05_TreeFromBlocks_A == Acting /\ HasObs(Post) /\ ~Damaged
 C05_TreeFromBlocks_C == TreeFromBlocksOn(Post, DPost)
 
@@ -303,7 +314,7 @@ C04_EmptyCommit_C ==
 (* C06 — arrays merge without loss or duplication (system level) *)
 ShownIn(doc) == UNION {Rng(doc.arrays[a]) : a \in DOMAIN doc.arrays}
 Sub(s, S) == SelectSeq(s, LAMBDA x : x \in S)
-LeafOrders(o, a) == {o.orders[OKey(a, lf)].seq : lf \in Core!LiveLeaves(Tree(o, a))}
+LeafOrders(o, d, a) == {o.orders[OKey(a, lf)].seq : lf \in d.leaves[a]}
 AgreeOnCommon(s, t) == Sub(s, Rng(t)) = Sub(t, Rng(s))
 C06_ArrayView_A == Acting /\ HasObs(Post) /\ Post.full /\ Post.doc.ok /\ ~Damaged
 C06_ArrayView_C ==
@@ -311,9 +322,9 @@ C06_ArrayView_C ==
     /\ NoDupArrays(doc)                                                        \* (i) no duplication
     /\ \A x \in ShownIn(doc) : x \in Objects(Post) => Alive(Post, x)           \* (ii) no ghosts
     /\ \A a \in DOMAIN doc.arrays : a \in Objects(Post) =>
-         LET lo == LeafOrders(Post, a)
+         LET lo == LeafOrders(Post, DPost, a)
              w == Post.orders[OKey(a, Post.winner[a])].seq
-             ll == Core!LiveLeaves(Tree(Post, a))
+             ll == DPost.leaves[a]
          IN
          /\ \A s \in lo : \A x \in Rng(s) : Alive(Post, x) => x \in DOMAIN doc.objs   \* (iii) no loss: shown in some array or directly under a flattened key
          /\ \A x \in Rng(doc.arrays[a]) : \E s \in lo : x \in Rng(s)                 \* (iv) no invention
@@ -335,7 +346,7 @@ C16_StoredEqualsSubmitted_C ==
 
 (* C07 — resolving adopts the chosen revision *)
 C07_Resolve_A == Op("Resolve") /\ OkRes /\ Has2 /\ E.a.o \in Rng(pre.inconf)
-                 /\ E.a.leaf \in Core!LiveLeaves(Tree(pre, E.a.o))
+                 /\ E.a.leaf \in dpre.leaves[E.a.o]
 C07_Resolve_C ==
     LET x == E.a.o  lf == E.a.leaf IN
     /\ x \notin Rng(Post.inconf)                                               \* no longer in conflict
@@ -372,7 +383,7 @@ C09_CrashAtomic_C ==
         /\ LET d == Derive(f) IN
            /\ d.applied = d.ccn
            /\ TreeFromBlocksOn(f, d)
-           /\ WinnerRuleOn(f)
+           /\ WinnerRuleOnD(f, d)
         /\ (E.op = "Commit" /\ FreshOK(cs[1].fresh) /\ FreshOK(cs[n].fresh) =>
                View(f) \in {View(cs[1].fresh), View(cs[n].fresh)})
 C09_FailedCommit_A == Op("Commit") /\ Has2 /\ \E j \in DOMAIN E.x.writes : E.x.writes[j].out = "failed"
@@ -393,7 +404,7 @@ C10_ErrorOrIntact_C ==
     \/ /\ OkRes /\ HasObs(Post)
        /\ DPost.applied = DPost.ccn
        /\ TreeFromBlocksOn(Post, DPost)
-       /\ WinnerRuleOn(Post)
+       /\ WinnerRuleOnD(Post, DPost)
 C10_NoAlteredContent_A == Acting /\ HasObs(Post) /\ Post.full
 C10_NoAlteredContent_C ==
     \A k \in DOMAIN Post.vals : k \in DOMAIN hp.vals =>
@@ -445,17 +456,63 @@ D_FrameMemory_C ==
     /\ Post.trees = pre.trees /\ Post.status = pre.status /\ Post.heads = pre.heads
     /\ Post.staging = pre.staging /\ Post.stage = pre.stage /\ View(Post) = View(pre)
 
+(* Level-I step conformance (growth of the specification beyond the listed properties; reported as
+   DRIFT, never as a VIOLATION): what each operation does to the abstract state *)
+NewEntries(x) == IF x \in Objects(pre) THEN DPost.tree[x] \ dpre.tree[x] ELSE DPost.tree[x]
+PreWinner(x) == IF x \in Objects(pre) THEN pre.winner[x] ELSE NoRev
+\* update(doc): every new revision is staged and extends the winner its object had before
+X_UpdateStep_A == Op("Update") /\ OkRes /\ Has2
+X_UpdateStep_C ==
+    /\ \A x \in Objects(pre) : x \in Objects(Post) /\ dpre.tree[x] \subseteq DPost.tree[x]
+    /\ \A x \in Objects(Post) : \A e \in NewEntries(x) : e.st /\ e.par = PreWinner(x) /\ ~TIsRes(e.rev)
+    /\ \A x \in Objects(Post) : Cardinality(NewEntries(x)) <= 1
+\* resolve_as: at most one re-assertion on the old winner, plus one marker on every other live leaf
+X_ResolveStep_A == C07_Resolve_A
+X_ResolveStep_C ==
+    LET x == E.a.o
+        ne == NewEntries(x)
+        re == {e \in ne : ~TIsRes(e.rev)}
+        mk == {e \in ne : TIsRes(e.rev)}
+    IN /\ \A y \in Objects(Post) \ {x} : y \in Objects(pre) /\ DPost.tree[y] = dpre.tree[y]
+       /\ \A e \in ne : e.st
+       /\ Cardinality(re) <= 1 /\ \A e \in re : e.par = pre.winner[x]
+       /\ {e.par : e \in mk} = Core!LiveLeaves(dpre.tree[x] \cup re) \ {Post.winner[x]}
+\* error model of resolve_as: a revision that is not a live leaf, or an object that is not in conflict, is refused
+X_ResolveRefused_A == Op("Resolve") /\ Has2 /\ E.a.o \in Objects(pre)
+                      /\ (E.a.leaf \notin dpre.leaves[E.a.o] \/ Cardinality(dpre.leaves[E.a.o]) <= 1)
+X_ResolveRefused_C == E.res.kind = "err" /\ Post = pre
+\* meld(other): afterwards the storage holds every valid block the source has loaded and every valid pack it has indexed
+X_MeldStep_A == Op("Meld") /\ OkRes /\ Has2 /\ ~Damaged /\ HasObs(ob[E.a.s]) /\ E.a.s \notin h.damaged
+                /\ \A j \in DOMAIN E.x.writes : E.x.writes[j].out # "failed"
+X_MeldStep_C ==
+    LET src == ob[E.a.s]  sd == der[E.a.s] IN
+    /\ \A i \in sd.items : (i.ok /\ i.kind = "delta" /\ i.name \in DOMAIN src.status) => i \in DPost.items
+    /\ \A i \in sd.items : (i.ok /\ i.kind = "pack" /\ ~src.staging /\ sd.applied = sd.ccn) => i \in DPost.items
+    /\ \A i \in NewItems : i \in sd.items
+\* unstage leaves exactly the committed part of every tree
+X_UnstageStep_A == Op("Unstage") /\ OkRes /\ Has2
+X_UnstageStep_C ==
+    /\ Objects(Post) = {x \in Objects(pre) : Core!Unstaged(dpre.tree[x]) # {}}
+    /\ \A x \in Objects(Post) : DPost.tree[x] = Core!Unstaged(dpre.tree[x])
+\* commit clears the staged flags and changes nothing else in the trees (besides auto-resolution of arrays)
+X_CommitStep_A == Op("Commit") /\ OkRes /\ E.x.committed /\ Has2
+X_CommitStep_C ==
+    /\ Objects(Post) = Objects(pre)
+    /\ \A x \in Objects(pre) : ~IsArr(x) => {[rev |-> e.rev, par |-> e.par] : e \in DPost.tree[x]} = {[rev |-> e.rev, par |-> e.par] : e \in dpre.tree[x]}
+    /\ \A x \in Objects(Post) : \A e \in DPost.tree[x] : ~e.st
+    /\ \A b \in Core!Blocks(NewItems) : \A c \in b.changes : \E e \in DPost.tree[c.o] : e.rev = c.rev /\ e.par = c.prev
+
 (* C19 — identifiers are canonical (system level) *)
 C19_Canonical_A == Acting /\ HasObs(Post)
 C19_Canonical_C ==
-    \A x \in Objects(Post) : \A e \in Tree(Post, x) :
+    \A x \in Objects(Post) : \A e \in DPost.tree[x] :
         /\ RevRec(e.rev).wf
         /\ IF e.par = NoRev THEN RevRec(e.rev).tail = ""
            ELSE /\ RevRec(e.par).wf
                 /\ TIdx(e.rev) = TIdx(e.par) + 1
                 /\ RevRec(e.rev).tail = RevRec(e.par).tailof
 C19_LeafOrderTotal_A == Acting /\ HasObs(Post)
-C19_LeafOrderTotal_C == \A x \in Objects(Post) : Core!StrictTotalOn(Core!LiveLeaves(Tree(Post, x)))
+C19_LeafOrderTotal_C == \A x \in Objects(Post) : Core!StrictTotalOn(DPost.leaves[x])
 
 -----------------------------------------------------------------------------
 (* Evaluation: count antecedents, print violations *)
@@ -471,7 +528,8 @@ Names == <<"C08_Returns", "C05_WinnerRule", "C05_TreeFromBlocks", "C02_AppliedCo
            "C06_ArrayView", "C16_Reconstructs", "C16_StoredEqualsSubmitted", "C07_Resolve",
            "C09_CommitWriteOrder", "C09_CrashAtomic", "C09_FailedCommit", "C10_ErrorOrIntact",
            "C10_NoAlteredContent", "C12_NoDocChange", "C14_Travel", "C14_Retrievable", "C15_CommitCleans",
-           "C15_Guards", "C15_Unstage", "C15_ExportReplay", "C19_Canonical", "C19_LeafOrderTotal", "C09_RetryDurable", "D_FrameStorage", "D_FrameMemory">>
+           "C15_Guards", "C15_Unstage", "C15_ExportReplay", "C19_Canonical", "C19_LeafOrderTotal", "C09_RetryDurable", "D_FrameStorage", "D_FrameMemory",
+           "X_UpdateStep", "X_ResolveStep", "X_ResolveRefused", "X_MeldStep", "X_UnstageStep", "X_CommitStep">>
 
 AllChecks ==
     /\ Chk(1, Names[1], C08_Returns_A, C08_Returns_C)
@@ -515,6 +573,12 @@ AllChecks ==
     /\ Chk(39, Names[39], C09_RetryDurable_A, C09_RetryDurable_C)
     /\ Chk(40, Names[40], D_FrameStorage_A, D_FrameStorage_C)
     /\ Chk(41, Names[41], D_FrameMemory_A, D_FrameMemory_C)
+    /\ Chk(42, Names[42], X_UpdateStep_A, X_UpdateStep_C)
+    /\ Chk(43, Names[43], X_ResolveStep_A, X_ResolveStep_C)
+    /\ Chk(44, Names[44], X_ResolveRefused_A, X_ResolveRefused_C)
+    /\ Chk(45, Names[45], X_MeldStep_A, X_MeldStep_C)
+    /\ Chk(46, Names[46], X_UnstageStep_A, X_UnstageStep_C)
+    /\ Chk(47, Names[47], X_CommitStep_A, X_CommitStep_C)
 
 \* the same predicates as individually named invariants (MeldaTraceStrict.cfg)
 C08_Returns == C08_Returns_A => C08_Returns_C
